@@ -41,7 +41,10 @@ def check_pixel(project: Project, rep, weight, kernel, sigma, skew, label):
     rep.analysed(fi)
     tag = f"{label}, skew={skew}"
     for ev in I.log:
-        if ev["kind"] == "shape-error" and ev["fi"] is fi:
+        if ev["kind"] == "shape-error" and ev["fi"] is fi and not I.clean_before(ev):
+            rep.unmodelled("PI-AXIS", fi, ev["node"], f"{tag}: a shape disagreement is reported after values the run could not "
+                                                      f"model: {ev['message']}"[:200])
+        elif ev["kind"] == "shape-error" and ev["fi"] is fi:
             rep.refuted("PI-AXIS", fi, ev["node"], f"{tag}: shapes disagree for some grid: {ev['message']}")
         if ev["kind"] == "reshape" and ev.get("verdict") == "scrambled":
             rep.refuted("PI-AXIS", fi, ev["node"],
